@@ -55,6 +55,9 @@ func runC19(c *eng.Ctx, tier string) {
 		c.Undecided("anchor", nil, 0, "expiry predicate (bool function over cachedSecret.Declared and Store.expiryAge)", "not found")
 		return
 	}
+	// R-C19-7: "dropped from the store and its cache only if ...": the cache
+	// document is the whole active set (C13's rule), nothing is filtered out
+	includeOnly(c, "R-C19-7", func(sc *eng.Ctx) { runC13(sc, "quick") }, "R-C13-2")
 	l := moduleLocks(c)
 	poll := p.Method(setecPkg, "Store", "poll")
 	applyFns := applyFuncs(c)
@@ -255,6 +258,7 @@ func runC19(c *eng.Ctx, tier string) {
 	}
 
 	// R-C19-3 reads stamp
+	handleBoundToName(c, "R-C19-3")
 	for _, f := range secretClosures(p) {
 		var stamp *ssa.Store
 		for _, a := range eng.FieldAccesses(f) {
